@@ -61,3 +61,184 @@ package state
 //@   ensures revInv(j) && len(j.validRevisions) < old(len(j.validRevisions))
 //@   ensures exists k int :: k == len(j.validRevisions) && old(j.validRevisions[k].id) == revid && len(j.entries) == old(j.validRevisions[k].journalIndex)
 //@   ensures forall k int :: 0 <= k && k < len(j.validRevisions) ==> j.validRevisions[k].id == old(j.validRevisions[k].id) && j.validRevisions[k].id < revid
+
+// ---- What each mutator records and what each journal entry undoes (C13).
+// Recording side: the setter journals the value before the write, under the object's own
+// address, and only then writes (ghost flag `logged`).  Undo side: the entry looks up the account
+// it was recorded for and writes back the value it carries.  What is not covered: that the journal
+// methods box exactly their arguments into the entry (interface values), and the map-backed
+// stores behind getStateObject / transientStorage / accessList.
+
+//@ func (s *stateObject) SetBalance(amount *uint256.Int) (prev uint256.Int)
+//@   serves C13
+//@   requires s.db != nil && s.db.journal != nil && s.data.Balance != nil
+//@   mutates
+//@   noframe
+//@   ghostvar logged bool = false
+//@   oncall balanceChange: logged = true
+//@   atcall balanceChange requires arg1 == s.db.journal && arg2 == s.address && arg3 == old(s.data.Balance)
+//@   atcall setBalance requires logged && arg1 == s && arg2 == amount
+
+//@ func (s *stateObject) setBalance(amount *uint256.Int)
+//@   serves C13
+//@   modifies s.data.Balance
+//@   ensures s.data.Balance == amount
+
+//@ func (s *stateObject) SetNonce(nonce uint64)
+//@   serves C13
+//@   requires s.db != nil && s.db.journal != nil
+//@   mutates
+//@   noframe
+//@   ghostvar logged bool = false
+//@   oncall nonceChange: logged = true
+//@   atcall nonceChange requires arg1 == s.db.journal && arg2 == s.address && arg3 == old(s.data.Nonce)
+//@   atcall setNonce requires logged && arg1 == s && arg2 == nonce
+
+//@ func (s *stateObject) setNonce(nonce uint64)
+//@   serves C13
+//@   modifies s.data.Nonce
+//@   ensures s.data.Nonce == nonce
+
+//@ func (s *stateObject) SetState(key, value common.Hash) (prev common.Hash)
+//@   serves C13
+//@   requires s.db != nil && s.db.journal != nil
+//@   mutates
+//@   noframe
+//@   ghostvar logged bool = false
+//@   oncall storageChange: logged = true
+//@   atcall storageChange requires arg1 == s.db.journal && arg2 == s.address && arg3 == key
+//@   atcall setState requires logged && arg1 == s && arg2 == key && arg3 == value
+
+//@ func (s *stateObject) SetCode(codeHash common.Hash, code []byte) (prev []byte)
+//@   serves C13
+//@   requires s.db != nil && s.db.journal != nil
+//@   mutates
+//@   noframe
+//@   ghostvar logged bool = false
+//@   oncall setCode: logged = true
+//@   atcall setCode#1 requires arg1 == s.db.journal && arg2 == s.address
+//@   atcall setCode#2 requires logged && arg1 == s && arg2 == codeHash
+
+//@ func (s *StateDB) AddRefund(gas uint64)
+//@   serves C13
+//@   requires s.journal != nil
+//@   mutates
+//@   noframe
+//@   atcall refundChange requires arg1 == s.journal && arg2 == old(s.refund)
+//@   ensures old(s.refund) + gas < 18446744073709551616 ==> s.refund == old(s.refund) + gas
+
+//@ func (s *StateDB) SubRefund(gas uint64)
+//@   serves C13
+//@   requires s.journal != nil
+//@   maypanic
+//@   mutates
+//@   noframe
+//@   atcall refundChange requires arg1 == s.journal && arg2 == old(s.refund)
+//@   ensures s.refund == old(s.refund) - gas && gas <= old(s.refund)
+
+//@ func (s *StateDB) SetTransientState(addr common.Address, key, value common.Hash)
+//@   serves C13
+//@   requires s.journal != nil
+//@   mutates
+//@   noframe
+//@   ghostvar logged bool = false
+//@   oncall transientStateChange: logged = true
+//@   atcall transientStateChange requires arg1 == s.journal && arg2 == addr && arg3 == key
+//@   atcall setTransientState requires logged && arg1 == s && arg2 == addr && arg3 == key && arg4 == value
+
+//@ func (s *StateDB) AddAddressToAccessList(addr common.Address)
+//@   serves C13
+//@   requires s.journal != nil && s.accessList != nil
+//@   mutates
+//@   noframe
+//@   ghostvar added bool = false
+//@   ghostvar logged bool = false
+//@   oncall AddAddress: added = result
+//@   oncall accessListAddAccount: logged = true
+//@   atcall AddAddress requires arg1 == s.accessList && arg2 == addr
+//@   atcall accessListAddAccount requires arg1 == s.journal && arg2 == addr
+//@   ensures logged == added
+
+//@ func (s *StateDB) AddSlotToAccessList(addr common.Address, slot common.Hash)
+//@   serves C13
+//@   requires s.journal != nil && s.accessList != nil
+//@   mutates
+//@   noframe
+//@   ghostvar addrMod bool = false
+//@   ghostvar slotMod bool = false
+//@   ghostvar loggedA bool = false
+//@   ghostvar loggedS bool = false
+//@   oncall AddSlot: addrMod = result0; slotMod = result1
+//@   oncall accessListAddAccount: loggedA = true
+//@   oncall accessListAddSlot: loggedS = true
+//@   atcall AddSlot requires arg1 == s.accessList && arg2 == addr && arg3 == slot
+//@   atcall accessListAddAccount requires arg2 == addr
+//@   atcall accessListAddSlot requires arg2 == addr && arg3 == slot
+//@   ensures loggedA == addrMod && loggedS == slotMod
+
+// Undo side.
+//@ func (ch balanceChange) revert(s *StateDB)
+//@   serves C13
+//@   mutates
+//@   noframe
+//@   atcall getStateObject requires arg1 == s && arg2 == ch.account
+//@   atcall setBalance requires arg2 == ch.prev
+
+//@ func (ch nonceChange) revert(s *StateDB)
+//@   serves C13
+//@   mutates
+//@   noframe
+//@   atcall getStateObject requires arg1 == s && arg2 == ch.account
+//@   atcall setNonce requires arg2 == ch.prev
+
+//@ func (ch storageChange) revert(s *StateDB)
+//@   serves C13
+//@   mutates
+//@   noframe
+//@   atcall getStateObject requires arg1 == s && arg2 == ch.account
+//@   atcall setState requires arg2 == ch.key
+//@   atcall setState requires arg3 == ch.prevvalue
+//@   atcall setState requires arg4 == ch.origvalue
+
+//@ func (ch codeChange) revert(s *StateDB)
+//@   serves C13
+//@   mutates
+//@   noframe
+//@   atcall getStateObject requires arg1 == s && arg2 == ch.account
+
+//@ func (ch transientStorageChange) revert(s *StateDB)
+//@   serves C13
+//@   mutates
+//@   noframe
+//@   atcall setTransientState requires arg1 == s && arg2 == ch.account && arg3 == ch.key && arg4 == ch.prevalue
+
+//@ func (ch refundChange) revert(s *StateDB)
+//@   serves C13
+//@   modifies s.refund
+//@   ensures s.refund == ch.prev
+
+//@ func (ch selfDestructChange) revert(s *StateDB)
+//@   serves C13
+//@   mutates
+//@   noframe
+//@   atcall getStateObject requires arg1 == s && arg2 == ch.account
+
+//@ func (ch accessListAddAccountChange) revert(s *StateDB)
+//@   serves C13
+//@   mutates
+//@   noframe
+//@   atcall DeleteAddress requires arg1 == s.accessList && arg2 == ch.address
+
+//@ func (ch accessListAddSlotChange) revert(s *StateDB)
+//@   serves C13
+//@   mutates
+//@   noframe
+//@   atcall DeleteSlot requires arg1 == s.accessList && arg2 == ch.address && arg3 == ch.slot
+
+// reset: a journal that is reused for the next transaction starts like a new one - no entries,
+// no live revisions, ids from zero (so the revision-stack invariant holds trivially).
+//@ func (j *journal) reset()
+//@   serves C13
+//@   noframe
+//@   ensures len(j.entries) == 0 && len(j.validRevisions) == 0 && j.nextRevisionId == 0
+//@   ensures revInv(j)
